@@ -14,7 +14,9 @@
 (*     WithOverallContextMiddleware + withTSAndSampleService -> Route      *)
 (*  writer/service/registry/staticServiceRegistry.go                       *)
 (*     staticServiceRegistryGetService (name match, else rand under        *)
-(*     r.mtx, one independent draw per service kind)        -> Route       *)
+(*     r.mtx); the middleware looks the FIRST service of a push up with    *)
+(*     the DSN and the others with the name of the node that one resolved  *)
+(*     to: one draw per push                                -> Route       *)
 (*  writer/service/genericInsertService.go                                 *)
 (*     InsertServiceV2Multimodal.Request (switch on mode)   -> PoolMode    *)
 (*     InsertServiceV2RoundRobin.Request                                   *)
@@ -45,6 +47,12 @@
 (* property with the quirk on; an exhibited quirk is reported as a         *)
 (* violation.  Conformance replay and trace validation then use the quirk  *)
 (* set the code exhibits.                                                  *)
+(* RETIRED quirks (repaired in the code, believed FALSE): QSplit (every    *)
+(* kind of a push drew its node on its own) and QWdFirst (watchdog.Check   *)
+(* returned after the first Ping).  Their TRUE variants stay as model      *)
+(* mutations: TLC must refute PushOnOneNode / WdNoStaleSkipped on them     *)
+(* (non-vacuity), and real code that matches a TRUE variant again is       *)
+(* reported under the property it breaks.                                  *)
 (***************************************************************************)
 EXTENDS Integers, Sequences, FiniteSets, TLC
 
@@ -61,7 +69,7 @@ CONSTANTS
     RG,             \* grid of the random draws: f = u / RG, u \in 0..RG-1
     QOrphan,        \* Run leaves the promises of the open batch pending when it exits on ctx.Done
     QUnknownDsn,    \* an X-CH-DSN that names no node falls through to the random choice
-    QSplit,         \* without a DSN every service kind of one push draws its node independently
+    QSplit,         \* (retired) without a usable DSN every service kind of one push draws its node independently
     QDefaultSync,   \* Multimodal.Request(default mode) uses the sync pool even on an async node
     QHeaderIgnored  \* doParse passes INSERT_MODE_SYNC whatever X-Async-Insert says
 
@@ -239,8 +247,10 @@ PlanFlush(sv) ==
 (* A push: middleware -> registry -> Multimodal.Request -> RoundRobin.Request -> InsertServiceV2.Request *)
 
 \* withTSAndSampleService: one registry lookup per service kind.  A DSN that names a node selects it for
-\* every kind.  Otherwise the registry draws (rand.Intn under r.mtx): the quirks decide whether an unknown
-\* DSN is refused and whether the kinds of one push draw together.  nd is the node drawn for each kind.
+\* every kind.  Otherwise the first lookup draws (rand.Intn under r.mtx) and the further lookups name the node
+\* it resolved to; the quirks decide whether an unknown DSN is refused and (retired QSplit) whether every kind
+\* draws on its own.  nd is the node each kind ends up with.  (A bare registry.Get*Service(dsn) call still draws
+\* on its own whenever the dsn names no node: that is the API, not a deviation.)
 Refused(d) == d \notin Nodes /\ d # "" /\ ~QUnknownDsn
 DrawOK(d, nd) ==
     /\ nd \in [Kinds -> Nodes]
@@ -490,9 +500,10 @@ EveryLegDecided == \A l \in Leg : (lpc[l] \in {"read", "pick", "check", "append"
 (*    RoundRobin.Ping / Multimodal.Ping: error iff one worker reports one  *)
 (*    watchdog.Init: every 5 s Check(); an error -> os.Exit(1)             *)
 (*    watchdog.Check: `for maps { for services { _, err := Ping();         *)
-(*                     return err } }` - returns after the FIRST service   *)
-(*                     of the first non-empty map (TsSvcs; Go map order    *)
-(*                     picks the node) [QWdFirst]                          *)
+(*                     if err != nil { return err } } }` - every service   *)
+(*                     of every map is pinged.  [QWdFirst, retired: the    *)
+(*                     loop returned after the FIRST service of the first  *)
+(*                     non-empty map; Go map order picked the node]        *)
 (* lastRequest of a worker is refreshed by Init, by a successful client    *)
 (* Ping (every second while idle) and by EVERY return of client.Do.        *)
 (* Time is counted in seconds; last[sv] is the oldest lastRequest of the   *)
@@ -502,7 +513,7 @@ CONSTANTS
     WT,           \* write timeout of the node in seconds
     MaxNow,       \* time bound of the model
     WdKinds,      \* sequence of kinds in the order watchdog.Init got the maps (TsSvcs first)
-    QWdFirst      \* Check returns after the first service it pings
+    QWdFirst      \* (retired) Check returns after the first service it pings
 
 Threshold == 2 * WT + 5
 Period    == 5
